@@ -152,6 +152,9 @@ UNITS = [
          trusted=["Namespace() builds an empty namespace; ns[key] = v stores v under key; getattr(x, '__dict__', x).items() lists the entries of a Namespace / dict"]),
     Unit("C08", "jsonargparse._namespace:patch_namespace", pn_setup, pn_post, pn_raises, expect_cover=("return", "raise:<Any>")),
 ] + [u for u in standard_units("C08") if u.target.endswith(":parser_context")]
+from contracts.core_units import dump_unit, instantiate_unit  # noqa: E402
+UNITS += [dump_unit("C08"), instantiate_unit("C08")]
+
 VERIFIED_CALLEES = ("recreate_branches",)
 LEVEL = "other"
 TECHNIQUE = "contract-based deductive verification of frame conditions (copy freshness of recreate_branches, restoration of argparse.Namespace / context variables / cwd; VCs from the real AST) + bounded deep-snapshot contract around every public operation"
